@@ -11,11 +11,32 @@ References are spread over 1..3 model files (ImportURI loading).  The Lean model
 (`Resolve.loop` + `Resolve.attrAfter`, Drivers/Resolve.lean) is run on the same
 table, order and list attributes.
 
+How the provider of reference K finds out whether a reference D it waits for is
+resolved ("how", per waiting reference):
+  "v" (default)  it looks at the model: the attribute of D holds the target;
+  "a"            `textx.scoping.tools.needs_to_be_resolved(object of D, attribute of D)`
+                 (the documented way; answered from `parser._crossrefs`, which is replaced
+                 at the end of a pass only: per object+attribute, stale within a pass);
+  "o"            `needs_to_be_resolved(object of D, None)` (any attribute of the object);
+  "r"            `has_unresolved_crossrefs(object of D, attribute of D)` of the resolver of
+                 the model that holds K (delegates to the owning model's resolver).
+"probe": queries (`needs_to_be_resolved`) the provider of K makes without using the answer.
+
+Walks: `walk W over E => tK` / `hike W over E => tK` hold two references: `over` (id 1000+K, to the
+element E = the element holding reference "o", resolved by PlainNameImportURI, never postponed) and
+`end` (id K), which is resolved by the RREL expression `RREL` below — registered as a provider (walk)
+or attached in the grammar (hike): it navigates `.~over.~<target|dst|members|end>`, and textX's RREL
+navigation returns Postponed as long as `needs_to_be_resolved(object, attribute)` holds for an
+attribute on the way.  So K waits (query, per attribute) for its own `over` and for the
+target / dst / members / end attribute of E; entries of "deps"/"how" for K are ignored.
+
 Case format:
   {"deps": [[K, [K1, ...]], ...], "prov": "exact"|"attr"|"cls",
+   "how": [[K, "a"|"o"|"r"], ...], "probe": [[K, [K1, ...]], ...],      (both optional)
    "files": [{"imports": [file index, ...], "elems": [ELEM, ...]}, ...]}
   ELEM = {"k":"ref","r":K} | {"k":"link","r":[K1,K2]} | {"k":"group","m":[K..],"x":[K..]}
        | {"k":"bag","m":[K..]} | {"k":"pair","m":[K1,K2(,K3)]} | {"k":"box","e":[ELEM..]}
+       | {"k":"walk"|"hike","r":K,"o":K'}
   (a file may give "refs": [K..] instead of "elems": one `ref` element each).
 """
 import os
@@ -29,14 +50,27 @@ GRAMMAR = r"""
 Model: imports*=Import items*=Item elems*=Elem;
 Import: 'import' importURI=STRING;
 Item: 'item' name=ID;
-Elem: Ref | Link | Group | Bag | Pair | Box;
+Elem: Ref | Link | Group | Bag | Pair | Box | Walk | Hike;
 Ref: 'ref' name=ID '->' target=[Item];
 Link: 'link' name=ID ':' src=[Item] '->' dst=[Item];
 Group: 'group' name=ID ':' members+=[Item][','] ('&' more+=[Item][','])? ';';
 Bag: 'bag' name=ID ':' members*=[Item][','] ';';
 Pair: 'pair' name=ID ':' members=[Item] members=[Item] (members=[Item])? ';';
 Box: 'box' name=ID '{' elems*=Elem '}';
+Walk: 'walk' name=ID 'over' over=[Elem] '=>' end=[Item];
+Hike: 'hike' name=ID 'over' over=[Elem] '=>' end=[Item:ID|RREL];
 """
+
+# follows the reference `over` to an element and that element's target / dst / members / end to item(s);
+# the name is looked up among the items of their model file(s), else among the items of the own file
+RREL = (".~over.~target.parent(Model).items,.~over.~dst.parent(Model).items,"
+        ".~over.~members.parent(Model).items,.~over.~end.parent(Model).items,^items")
+GRAMMAR = GRAMMAR.replace("RREL", RREL)
+OVER = 1000  # id of the `over` reference of the walk whose `end` reference is K: OVER + K
+WALKS = ("walk", "hike")
+# the attribute the RREL expression follows on an element of the kind
+TARGET_ATTR = {"ref": "target", "link": "dst", "group": "members", "bag": "members", "pair": "members",
+               "walk": "end", "hike": "end"}
 
 # reference attributes per class, in textual order: (attribute, is list)
 REF_ATTRS = {
@@ -45,8 +79,11 @@ REF_ATTRS = {
     "Group": [("members", True), ("more", True)],
     "Bag": [("members", True)],
     "Pair": [("members", True)],
+    "Walk": [("over", False), ("end", False)],
+    "Hike": [("over", False), ("end", False)],
 }
-CLASS_OF = {"ref": "Ref", "link": "Link", "group": "Group", "bag": "Bag", "pair": "Pair", "box": "Box"}
+CLASS_OF = {"ref": "Ref", "link": "Link", "group": "Group", "bag": "Bag", "pair": "Pair", "box": "Box",
+            "walk": "Walk", "hike": "Hike"}
 
 
 class NonTermination(Exception):
@@ -76,6 +113,8 @@ def elem_attrs(e):
         return out
     if k in ("bag", "pair"):
         return [("members", True, list(e["m"]))]
+    if k in WALKS:
+        return [("over", False, [OVER + e["r"]]), ("end", False, [e["r"]])]
     raise ValueError(f"unknown element kind {k!r}")
 
 
@@ -90,12 +129,35 @@ def file_refs(f):
     return [r for e in file_elems(f) for r in elem_refs(e)]
 
 
-def render_file(i, f):
+def elem_name(i, e, path):
+    return e["k"][0] + str(i) + "_" + "_".join(str(p) for p in path)
+
+
+def holders(files):
+    """reference id -> (file, path, element) of the element holding it"""
+    out = {}
+
+    def go(i, e, path):
+        if e["k"] == "box":
+            for j, c in enumerate(e["e"]):
+                go(i, c, path + [j])
+        else:
+            for r in elem_refs(e):
+                out[r] = (i, path, e)
+
+    for i, f in enumerate(files):
+        for j, e in enumerate(file_elems(f)):
+            go(i, e, [j])
+    return out
+
+
+def render_file(i, f, hold=None):
     """text of model file i and its reference attributes in textual order:
-    [{"file", "path", "cls", "attr", "list", "refs": [[K, position]..]}]"""
+    [{"file", "path", "cls", "attr", "list", "refs": [[K, position]..]}]  (`hold` = holders(all files): needed
+    for the names of the elements walks go over)"""
     text = "".join(f'import "f{j}.m"\n' for j in f["imports"])
     text += f"item pad{i}\n"  # an empty file would yield a str model (outside C09)
-    text += "".join(f"item t{r}\n" for r in file_refs(f))
+    text += "".join(f"item t{r}\n" for r in file_refs(f) if r < OVER)
     attrs = []
 
     def ref(r, into):
@@ -106,7 +168,7 @@ def render_file(i, f):
     def emit(e, path, depth):
         nonlocal text
         k = e["k"]
-        name = k[0] + str(i) + "_" + "_".join(str(p) for p in path)
+        name = elem_name(i, e, path)
         text += "  " * depth + f"{k} {name} "
         if k == "box":
             text += "{\n"
@@ -120,6 +182,14 @@ def render_file(i, f):
         if k == "ref":
             text += "-> "
             ref(e["r"], recs[0]["refs"])
+        elif k in WALKS:
+            fi, fpath, fe = (hold or {}).get(e["o"], (i, ["missing"], {"k": "x"}))
+            over = elem_name(fi, fe, fpath)
+            text += "over "
+            recs[0]["refs"].append([OVER + e["r"], len(text)])
+            recs[0]["want"] = "?" + over
+            text += over + " => "
+            ref(e["r"], recs[1]["refs"])
         elif k == "link":
             text += ": "
             ref(e["r"][0], recs[0]["refs"])
@@ -147,7 +217,65 @@ def render_file(i, f):
 
 def case_attrs(case):
     """all reference attributes of the case, files in index order"""
-    return [a for i, f in enumerate(case["files"]) for a in render_file(i, f)[1]]
+    hold = holders(case["files"])
+    return [a for i, f in enumerate(case["files"]) for a in render_file(i, f, hold)[1]]
+
+
+def case_places(case):
+    """reference id -> (file, object number, attribute number, path, attribute name); objects are numbered
+    over all files, attributes within their class"""
+    places, objs = {}, {}
+    for a in case_attrs(case):
+        o = objs.setdefault((a["file"], tuple(a["path"])), len(objs))
+        n = [x for x, _ in REF_ATTRS[a["cls"]]].index(a["attr"])
+        for r, _ in a["refs"]:
+            places[r] = (a["file"], o, n, tuple(a["path"]), a["attr"])
+    return places
+
+
+def case_how(case):
+    return {k: h for k, h in case.get("how", []) if h != "v"}
+
+
+def expanded_deps(case, reachable):
+    """what the provider of K waits for, as sets of references: {K: set or None (= can never resolve)};
+    a query about an object (and attribute) waits for every reference the object holds (in that attribute)"""
+    places = {r: p for r, p in case_places(case).items() if p[0] in reachable}
+    how = case_how(case)
+    out = {}
+    hold = holders(case["files"])
+    walks = {e["r"]: e for _, _, e in hold.values() if e["k"] in WALKS}
+    for k, ds in case["deps"]:
+        if k in walks:
+            continue
+        mode, want = how.get(k, "v"), set()
+        for d in ds:
+            if d not in places:
+                want = None
+                break
+            if mode == "v":
+                want.add(d)
+            else:
+                f, o, n = places[d][:3]
+                want.update(r for r, p in places.items() if p[1] == o and (mode == "o" or p[2] == n))
+        out[k] = want
+    for k, e in walks.items():
+        if k in places:
+            out[k] = {r for _, _, r in walk_waits(e, hold, places)}
+    return out
+
+
+def walk_waits(e, hold, places):
+    """the attributes the RREL expression of the walk `e` navigates: [(object number, attribute number, reference)],
+    first its own `over`, then every reference of the target / dst / members / end attribute of the element it goes over"""
+    out = [(places[OVER + e["r"]][1], 0, OVER + e["r"])]
+    if e["o"] in hold and e["o"] in places:
+        fi, fpath, fe = hold[e["o"]]
+        attr = TARGET_ATTR[fe["k"]]
+        for r, pl in places.items():
+            if pl[0] == fi and pl[3] == tuple(fpath) and pl[4] == attr:
+                out.append((pl[1], pl[2], r))
+    return out
 
 
 def walk_elems(model_elems, case_elems, path=()):
@@ -181,12 +309,14 @@ def item_id(x):
 def provider_keys(style):
     keys = []
     for cls, attrs in REF_ATTRS.items():
+        if cls in ("Walk", "Hike"):
+            continue
         for attr, _ in attrs:
             keys.append({"exact": f"{cls}.{attr}", "attr": f"*.{attr}", "cls": f"{cls}.*"}[style])
     return sorted(set(keys))
 
 
-def make_mm(table, log, limit, style="exact"):
+def make_mm(table, log, limit, style="exact", case=None):
     use_repo()
     import textx
     from textx import get_model, metamodel_from_str
@@ -217,6 +347,36 @@ def make_mm(table, log, limit, style="exact"):
                             done.add(item_id(x))
         return done
 
+    from textx.scoping.tools import needs_to_be_resolved
+
+    how = case_how(case) if case else {}
+    probes = {k: ds for k, ds in case.get("probe", [])} if case else {}
+    where = {}  # reference id -> (object, attribute name), filled with the first call
+
+    def locate(ms):
+        if where or not case:
+            return
+        byfile = {os.path.basename(m._tx_filename): m for m in ms}
+        for i, f in enumerate(case["files"]):
+            m = byfile.get(f"f{i}.m")
+            if m is None:
+                continue
+            for _, e, o in walk_elems(m.elems, file_elems(f), ()):
+                for a, _, rs in elem_attrs(e):
+                    for r in rs:
+                        where[r] = (o, a)
+
+    def unresolved(mode, asking, d):
+        """does the resolver say that reference d is still to be resolved?"""
+        if d not in where:
+            return True
+        o, a = where[d]
+        if mode == "a":
+            return needs_to_be_resolved(o, a)
+        if mode == "o":
+            return needs_to_be_resolved(o, None)
+        return get_model(asking)._tx_reference_resolver.has_unresolved_crossrefs(o, a)
+
     def provider(obj, attr, obj_ref):
         calls[0] += 1
         if calls[0] > limit:
@@ -224,7 +384,17 @@ def make_mm(table, log, limit, style="exact"):
         rid = int(obj_ref.obj_name[1:])
         ms = all_models(obj)
         deps = table.get(rid, [])
-        if deps:
+        mode = how.get(rid, "v")
+        if mode != "v" or rid in probes:
+            locate(ms)
+        for d in probes.get(rid, []):
+            if d in where:
+                needs_to_be_resolved(*where[d])
+        if deps and mode != "v":
+            if any(unresolved(mode, obj, d) for d in deps):
+                log.append(["postponed", rid])
+                return Postponed()
+        elif deps:
             done = resolved_now(ms)
             if any(d not in done for d in deps):
                 log.append(["postponed", rid])
@@ -236,9 +406,45 @@ def make_mm(table, log, limit, style="exact"):
                     return it
         return None
 
-    providers = {"*.*": sp.PlainNameImportURI()}
+    plain = sp.PlainNameImportURI()
+    providers = {"*.*": plain}
     for k in provider_keys(style):
         providers[k] = provider
+
+    # walks: `over` by name (never postponed), `end` by the RREL expression (Walk: registered, logged;
+    # Hike: attached in the grammar, the resolver calls it directly)
+    from textx.scoping.rrel import create_rrel_scope_provider
+
+    rrel = create_rrel_scope_provider(RREL)
+    walk_of = {}
+    if case:
+        for r, (fi, fpath, e) in holders(case["files"]).items():
+            if e["k"] in WALKS:
+                walk_of[elem_name(fi, e, fpath)] = e["r"]
+
+    def count():
+        calls[0] += 1
+        if calls[0] > limit:
+            raise NonTermination(f"provider called more than {limit} times")
+
+    def over_provider(obj, attr, obj_ref):
+        count()
+        res = plain(obj, attr, obj_ref)
+        if res is not None and type(res) is not Postponed and obj.name in walk_of:
+            log.append(["resolved", OVER + walk_of[obj.name]])
+        return res
+
+    def end_provider(obj, attr, obj_ref):
+        count()
+        res = rrel(obj, attr, obj_ref)
+        if type(res) is Postponed:
+            log.append(["postponed", int(obj_ref.obj_name[1:])])
+        elif res is not None:
+            log.append(["resolved", int(obj_ref.obj_name[1:])])
+        return res
+
+    providers["Walk.over"] = providers["Hike.over"] = over_provider
+    providers["Walk.end"] = end_provider
     mm.register_scope_providers(providers)
     return mm
 
@@ -272,6 +478,15 @@ class Prop(Check):
         "Resolve.C09_list_result",
         "Resolve.C09_list_success",
         "Resolve.C09_list_order_indep",
+        "Resolve.C09_query_terminates",
+        "Resolve.C09_query_fixpoint",
+        "Resolve.C09_query_lfp",
+        "Resolve.C09_query_error_exact",
+        "Resolve.C09_query_success_iff",
+        "Resolve.C09_query_same_result",
+        "Resolve.C09_query_order_indep",
+        "Resolve.C09_query_list_result",
+        "Resolve.C09_query_list_success",
     ]
     DRIVER = "Drivers/Resolve.lean"
     QUICK_CASES = 480
@@ -281,9 +496,14 @@ class Prop(Check):
             "hidden order) held by single-valued attributes, two attributes of one object, list attributes (+=, *=, repeated "
             "assignment; several objects of one class, two lists on one object, same attribute name in two classes) and "
             "objects nested in containers, spread over 1..3 model files with random import graphs; provider registered "
-            "as Class.attr / *.attr / Class.*; non-trivial = at least one reference is postponed at least once")
+            "as Class.attr / *.attr / Class.*; the provider of a waiting reference learns that a reference is resolved "
+            "from the model (attribute value) or from the resolver (needs_to_be_resolved per attribute / per object, "
+            "has_unresolved_crossrefs of the asking model's resolver; one way per case or per reference), optional "
+            "queries without effect; non-trivial = at least one reference is postponed at least once")
     MODELLED = ("hand-modelled: model.py:935-968 loop and resolve_one_step pass (Resolve.step/loop) and its list branch "
-                "(Resolve.attrAfter: bisect insertion, one position list per object and attribute); tie X: resolution "
+                "(Resolve.attrAfter: bisect insertion, one position list per object and attribute), "
+                "ReferenceResolver.has_unresolved_crossrefs / scoping.tools.needs_to_be_resolved (Resolve.hasUnresolved, "
+                "stepQ/roundQ/loopQ: parser._crossrefs replaced at the end of a pass, one list per model file); tie X: resolution "
                 "sequence + pending set + content of every list attribute vs real resolver with a table-driven provider; "
                 "not exhibited: providers that are not monotone in the resolved set, providers attached in the grammar (RREL)")
     ASSUMPTIONS = ["scope providers are monotone in the set of resolved references (the property's 'given the ones resolved before it')"]
@@ -292,7 +512,115 @@ class Prop(Check):
     def gen(self, rng, n, tier):
         for _ in range(n):
             profile = rng.weighted([("mixed", 5), ("lists", 5), ("scalar", 2)])
-            yield self.gen_one(rng, profile)
+            case = self.gen_one(rng, profile)
+            # how the providers learn that a reference is resolved: from the model (attribute values), from the
+            # resolver (needs_to_be_resolved per attribute / per object, has_unresolved_crossrefs of the asking
+            # model), one way for the whole case or one per waiting reference; plus queries without effect
+            ask = rng.weighted([("value", 4), ("a", 2), ("o", 1), ("r", 1), ("each", 3)])
+            if ask != "value":
+                self.gen_how(rng, case, ask)
+            if rng.chance(0.25):
+                self.gen_walks(rng, case)
+            # a query waits for all references of an object (attribute), which makes most random structures
+            # unresolvable: half of these cases are thinned out until some order resolves everything
+            if (case.get("how") or any(e["k"] in WALKS for f in case["files"] for e in self._flat(file_elems(f)))) \
+                    and rng.chance(0.55):
+                self.make_resolvable(rng, case)
+            yield case
+
+    def make_resolvable(self, rng, case):
+        """drop waits (one waiting reference at a time) until every reference is derivable"""
+        reach = set(file_order(case["files"]))
+        for _ in range(40):
+            table = expanded_deps(case, reach)
+            refs = self.order(case)
+            lfp, changed = set(), True
+            while changed:
+                changed = False
+                for r in refs:
+                    want = table.get(r, set())
+                    if r not in lfp and want is not None and want <= lfp:
+                        lfp.add(r)
+                        changed = True
+            dead = [r for r in refs if r not in lfp]
+            if not dead:
+                return
+            walks = {e["r"] for f in case["files"] for e in self._flat(file_elems(f)) if e["k"] in WALKS}
+            tab = [k for k in dead if k not in walks and any(k == i for i, _ in case["deps"])]
+            if tab:
+                k = rng.choice(tab)
+                ds = next(d for i, d in case["deps"] if i == k)
+                one = {d: expanded_deps({**case, "deps": [[k, [d]]]}, reach).get(k) for d in ds}
+                keep = [d for d in ds if one[d] is not None and one[d] <= lfp]
+                case["deps"] = [[i, (keep if i == k else d)] for i, d in case["deps"] if i != k or keep]
+            else:  # a walk over an element that waits for the walk
+                x = rng.choice([k for k in dead if k in walks])
+                case["files"] = self._no_dangling([{"imports": f["imports"], "elems": self._without(file_elems(f), x)}
+                                                   for f in case["files"]])
+                case["deps"] = [[i, [d for d in ds if d != x]] for i, ds in case["deps"] if i != x]
+                case["deps"] = [[i, ds] for i, ds in case["deps"] if ds]
+            waiting = {i for i, _ in case["deps"]}
+            if "how" in case:
+                case["how"] = [[i, h] for i, h in case["how"] if i in waiting]
+
+    def gen_walks(self, rng, case):
+        """references resolved by an RREL expression that navigates other references (postponed by textX's own
+        RREL code as long as needs_to_be_resolved holds on the way): over elements of the own file or of a
+        directly imported file, also over other walks; some table-driven references wait for a walk's end"""
+        files = case["files"]
+        nxt = max([r for f in files for r in file_refs(f) if r < OVER] + [-1]) + 1
+        deps = {k: list(ds) for k, ds in case["deps"]}
+        for _ in range(rng.randint(1, 3)):
+            a = rng.below(len(files))
+            seen = [a] + [j for j in files[a]["imports"] if j != a]
+            cand = sorted(r for j in seen for r in file_refs(files[j]) if r < OVER)
+            if not cand:
+                continue
+            e = {"k": rng.choice(["walk", "hike"]), "r": nxt, "o": rng.choice(cand)}
+            elems = file_elems(files[a])
+            elems.insert(rng.randint(0, len(elems)), e)
+            files[a] = {"imports": files[a]["imports"], "elems": elems}
+            if rng.chance(0.5):
+                others = sorted(r for f in files for r in file_refs(f) if r < OVER and r != nxt)
+                k = rng.choice(others)
+                if not any(x.get("r") == k and x["k"] in WALKS for f in files for x in self._flat(file_elems(f))):
+                    deps.setdefault(k, [])
+                    if nxt not in deps[k]:
+                        deps[k].append(nxt)
+            nxt += 1
+        case["deps"] = [[k, deps[k]] for k in sorted(deps)]
+
+    @staticmethod
+    def _no_dangling(files):
+        """a walk needs the element it goes over: walks over a reference nobody holds are removed"""
+        files = [{"imports": f["imports"], "elems": file_elems(f)} for f in files]
+        while True:
+            held = set(holders(files))
+            gone = [e["r"] for f in files for e in Prop._flat(f["elems"]) if e["k"] in WALKS and e["o"] not in held]
+            if not gone:
+                return files
+            for x in gone:
+                files = [{"imports": f["imports"], "elems": Prop._without(f["elems"], x)} for f in files]
+
+    @staticmethod
+    def _flat(elems):
+        for e in elems:
+            if e["k"] == "box":
+                yield from Prop._flat(e["e"])
+            else:
+                yield e
+
+    def gen_how(self, rng, case, ask):
+        waiting = [k for k, _ in case["deps"]]
+        if ask == "each":
+            how = [[k, rng.weighted([("v", 2), ("a", 3), ("o", 2), ("r", 2)])] for k in waiting]
+        else:
+            how = [[k, ask] for k in waiting]
+        case["how"] = [[k, h] for k, h in how if h != "v"]
+        ids = sorted(r for f in case["files"] for r in file_refs(f) if r < OVER)
+        if rng.chance(0.3):
+            case["probe"] = [[k, rng.sample(ids, rng.randint(1, min(2, len(ids))))]
+                             for k in ids if rng.chance(0.4)]
 
     def gen_deps(self, rng, ids, clean):
         """dependency structure: `clean` = a DAG along a hidden resolution order (always resolvable, the hidden
@@ -384,12 +712,13 @@ class Prop(Check):
         files = case["files"]
         nrefs = sum(len(file_refs(f)) for f in files)
         log = []
-        mm = make_mm(table, log, limit=(nrefs + 3) * (nrefs + 1) + 5, style=case.get("prov", "exact"))
+        mm = make_mm(table, log, limit=(nrefs + 3) * (nrefs + 1) + 5, style=case.get("prov", "exact"), case=case)
         tmp = tempfile.mkdtemp(prefix="c09_")
         try:
+            hold = holders(files)
             for i, f in enumerate(files):
                 with open(os.path.join(tmp, f"f{i}.m"), "w") as fh:
-                    fh.write(render_file(i, f)[0])
+                    fh.write(render_file(i, f, hold)[0])
             try:
                 model = mm.model_from_file(os.path.join(tmp, "f0.m"))
                 out = {"outcome": "ok", "pending": []}
@@ -436,7 +765,35 @@ class Prop(Check):
     # ------------------------------------------------------------------ model tie
     def model_req(self, case, obs):
         lists = [a["refs"] for a in case_attrs(case) if a["list"]]
-        return {"op": "resolve", "refs": self.order(case), "deps": case["deps"], "lists": lists}
+        how = case_how(case)
+        hold = holders(case["files"])
+        walks = {e["r"]: e for _, _, e in hold.values() if e["k"] in WALKS}
+        if not how and not walks:
+            return {"op": "resolve", "refs": self.order(case), "deps": case["deps"], "lists": lists}
+        # providers that ask the resolver: the `_crossrefs` list of every model file takes part
+        order = file_order(case["files"])
+        slot = {f: n for n, f in enumerate(order)}
+        places = case_places(case)
+        files = [[[r, places[r][1], places[r][2]] for r in file_refs(case["files"][f])] for f in order]
+        waits = []
+        for k, e in sorted(walks.items()):
+            if k in places and places[k][0] in slot:
+                ws = [[1, slot[places[r][0]], o, n] for o, n, r in walk_waits(e, hold, places) if places[r][0] in slot]
+                waits.append([k, [w for n, w in enumerate(ws) if w not in ws[:n]]])
+        for k, ds in case["deps"]:
+            if k in walks:
+                continue
+            ws = []
+            for d in ds:
+                p = places.get(d)
+                if how.get(k, "v") == "v" or p is None or p[0] not in slot:
+                    ws.append([0, d])  # (a reference that is not there never resolves)
+                elif how[k] == "o":
+                    ws.append([2, slot[p[0]], p[1]])
+                else:
+                    ws.append([1, slot[p[0]], p[1], p[2]])
+            waits.append([k, ws])
+        return {"op": "resolveq", "files": files, "waits": waits, "lists": lists}
 
     def compare(self, case, obs, out):
         if "err" in out:
@@ -445,8 +802,10 @@ class Prop(Check):
             return f"implementation outcome {obs['outcome']} but model terminates with pending={out['pending']}"
         if sorted(obs["pending"]) != sorted(out["pending"]):
             return f"pending references differ: impl {sorted(obs['pending'])} model {sorted(out['pending'])}"
-        if obs["seq"] != out["seq"]:
-            return f"resolution sequence differs: impl {obs['seq']} model {out['seq']}"
+        hikes = {e["r"] for _, _, e in holders(case["files"]).values() if e["k"] == "hike"}
+        mseq = [r for r in out["seq"] if r not in hikes]  # (a provider attached in the grammar is not observed)
+        if obs["seq"] != mseq:
+            return f"resolution sequence differs: impl {obs['seq']} model {mseq}"
         if obs["outcome"] == "ok" and "values" in obs:
             attrs = case_attrs(case)
             got = [v for a, v in zip(attrs, obs["values"]) if a["list"]]
@@ -461,13 +820,14 @@ class Prop(Check):
     # ------------------------------------------------------------------ direct oracle
     def oracle(self, case, obs):
         # spec: least fixpoint of "all dependencies resolved"
-        table = {i: d for i, d in case["deps"]}
+        table = expanded_deps(case, set(file_order(case["files"])))
         refs = self.order(case)
         lfp, changed = set(), True
         while changed:
             changed = False
             for r in refs:
-                if r not in lfp and all(d in lfp for d in table.get(r, [])):
+                want = table.get(r, set())
+                if r not in lfp and want is not None and want <= lfp:
                     lfp.add(r)
                     changed = True
         dead = sorted(set(refs) - lfp)
@@ -485,7 +845,10 @@ class Prop(Check):
             for a, v in zip(case_attrs(case), obs["values"]):
                 want = [r for r, _ in a["refs"]]
                 where = f"{a['cls']}.{a['attr']} of element {a['path']} in file {a['file']}"
-                if a["list"]:
+                if "want" in a:
+                    if v != a["want"]:
+                        return f"reference {where} resolved to {v}, expected {a['want']}"
+                elif a["list"]:
                     if v != want:
                         return (f"list {where} = {v} but its references are written in the order {want} "
                                 "(the result depends on the resolution order)")
@@ -518,8 +881,35 @@ class Prop(Check):
                 inverted += 1
                 if any(sum(1 for b in lists if (b["file"], b["cls"]) == (a["file"], a["cls"])) > 1 for a in inv):
                     shared += 1
+        # providers that ask the resolver: how often a query crosses a file boundary / meets a partly resolved list
+        asking = cross = partial = walks = 0
+        for c, o in zip(cases, obs):
+            if not isinstance(o, dict) or "seq" not in o:
+                continue
+            how = case_how(c)
+            hold = holders(c["files"])
+            ws = [e for _, _, e in hold.values() if e["k"] in WALKS]
+            if ws:
+                walks += 1
+            if not how and not ws:
+                continue
+            asking += 1
+            places = case_places(c)
+            pairs = [(k, d) for k, ds in c["deps"] if k in how for d in ds]
+            pairs += [(e["r"], e["o"]) for e in ws]
+            if any(k in places and d in places and places[k][0] != places[d][0] for k, d in pairs):
+                cross += 1
+            done = set(o["seq"])
+            for _, d in pairs:
+                if d in places:
+                    grp = [r for r, p in places.items() if p[1] == places[d][1] and p[2] == places[d][2]]
+                    if len(grp) > 1 and any(r in done for r in grp) and any(r not in done for r in grp):
+                        partial += 1
+                        break
         return {"loads_with_lists": with_lists, "loads_with_list_resolved_out_of_textual_order": inverted,
-                "of_these_with_another_list_of_the_same_class_in_the_file": shared}
+                "of_these_with_another_list_of_the_same_class_in_the_file": shared,
+                "loads_with_providers_asking_the_resolver": asking, "of_these_asking_about_another_model_file": cross,
+                "of_these_asking_about_a_list_left_partly_resolved": partial, "loads_with_rrel_walks": walks}
 
     # ------------------------------------------------------------------ shrinking
     @staticmethod
@@ -534,6 +924,9 @@ class Prop(Check):
                     out.append({"k": "box", "e": inner})
             elif k == "ref":
                 if e["r"] != x:
+                    out.append(e)
+            elif k in WALKS:
+                if x not in (e["r"], e["o"]):
                     out.append(e)
             elif k == "link":
                 rest = [r for r in e["r"] if r != x]
@@ -556,32 +949,54 @@ class Prop(Check):
     def shrink(self, case):
         files = [{"imports": f["imports"], "elems": file_elems(f)} for f in case["files"]]
         prov = case.get("prov", "exact")
-        ids = sorted({r for f in files for r in file_refs(f)})
+        how = [[k, h] for k, h in case.get("how", []) if h != "v"]
+        probe = [[k, ds] for k, ds in case.get("probe", []) if ds]
+
+        def mk(deps, files, prov=prov, how=how, probe=probe):
+            files = self._no_dangling(files)
+            waiting = {k for k, _ in deps}
+            c = {"deps": deps, "prov": prov, "files": files}
+            if any(k in waiting for k, _ in how):
+                c["how"] = [[k, h] for k, h in how if k in waiting]
+            if probe:
+                c["probe"] = probe
+            return c
+
+        ids = sorted({r for f in files for r in file_refs(f) if r < OVER})
+        # no queries without effect
+        if probe:
+            yield mk(case["deps"], files, probe=[])
         # drop one reference (and mentions of it)
         for x in ids:
             fs = [{"imports": f["imports"], "elems": self._without(f["elems"], x)} for f in files]
             deps = [[i, [d for d in ds if d != x]] for i, ds in case["deps"] if i != x]
             deps = [[i, ds] for i, ds in deps if ds]
+            pr = [[k, [d for d in ds if d != x]] for k, ds in probe if k != x]
             if any(file_refs(f) for f in fs):
-                yield {"deps": deps, "prov": prov, "files": fs}
+                yield mk(deps, fs, how=[[k, h] for k, h in how if k != x], probe=[[k, ds] for k, ds in pr if ds])
         # one file
         if len(files) > 1:
             merged = {"imports": [], "elems": [e for f in files for e in f["elems"]]}
-            yield {"deps": case["deps"], "prov": prov, "files": [merged]}
+            yield mk(case["deps"], [merged])
         # open a container
         for fi, f in enumerate(files):
             for j, e in enumerate(f["elems"]):
                 if e["k"] == "box":
                     f2 = {"imports": f["imports"], "elems": f["elems"][:j] + e["e"] + f["elems"][j + 1:]}
-                    yield {"deps": case["deps"], "prov": prov, "files": files[:fi] + [f2] + files[fi + 1:]}
+                    yield mk(case["deps"], files[:fi] + [f2] + files[fi + 1:])
         # drop one wait
         for n, (i, ds) in enumerate(case["deps"]):
             for d in ds:
                 rest = [y for y in ds if y != d]
                 deps = case["deps"][:n] + ([[i, rest]] if rest else []) + case["deps"][n + 1:]
-                yield {"deps": deps, "prov": prov, "files": files}
+                yield mk(deps, files)
+        # a provider that looks at the model instead of asking the resolver; the plain query
+        for n, (k, h) in enumerate(how):
+            yield mk(case["deps"], files, how=how[:n] + how[n + 1:])
+            if h != "a":
+                yield mk(case["deps"], files, how=how[:n] + [[k, "a"]] + how[n + 1:])
         if prov != "exact":
-            yield {"deps": case["deps"], "prov": "exact", "files": files}
+            yield mk(case["deps"], files, prov="exact")
 
     def extra_search(self, rng, tier, broken):
         return list(self.gen(rng, 1500 if tier == "quick" else 10000, tier))
